@@ -231,6 +231,11 @@ def flagsets():
         st.builds(lambda a, b: CONSENSUS | a | b, single, single),
         st.builds(lambda a, b: a | b, single, single),
         st.integers(0, 0xffff),
+        # flag sets without any of the three signature-encoding rules (DERSIG / LOW_S / STRICTENC): only under these are
+        # the lax DER forms, padded signatures and undefined hash types accepted, so that the *other* rules decide
+        st.builds(lambda base, extra: base | (extra & ~(V.DERSIG | V.LOW_S | V.STRICTENC)),
+                  st.sampled_from([V.P2SH | V.WITNESS, V.P2SH | V.WITNESS, V.P2SH, 0]), st.integers(0, 0xffff)),
+        st.sampled_from([V.P2SH | V.WITNESS, V.P2SH | V.WITNESS | V.NULLFAIL, V.P2SH | V.WITNESS | V.NULLDUMMY | V.CHECKLOCKTIMEVERIFY]),
     ).map(normalize_flags)
 
 
@@ -439,12 +444,34 @@ def spend_cases():
     grammar = st.builds(mk, shapes, st.tuples(programs(), st.lists(push_tok(), max_size=3)), flagsets(), contexts(), muts(),
                         st.sampled_from([False, False, True]), st.sampled_from(["min"] * 6 + ["p1", "p2"]))
 
+    # unlocking scripts that execute code (legal for a bare output unless SIGPUSHONLY is set): conditionals, signature
+    # operations and arithmetic run in the scriptSig, whose evaluation takes only some of the flags (MINIMALIF and
+    # WITNESS_PUBKEYTYPE are segwit-v0 rules and do not apply there)
+    def mk_exec(lock_tail, unlock_prog, flags, ctx):
+        return dict(ctx, kind="spend", shape="bare", lock=lock_tail, unlock=unlock_prog, flags=flags, mut=[])
+    simple_locks = st.sampled_from([[["n", 1, "opn"], ["op", V.OP_EQUAL]], [["op", V.OP_DEPTH], ["op", V.OP_0NOTEQUAL]], [],
+                                    [["op", V.OP_NOT]], [["op", V.OP_VERIFY], ["n", 1, "opn"]], [["op", V.OP_DROP], ["n", 1, "opn"]]])
+    cond_unlock = st.builds(lambda arg, op, a, b: [arg, ["op", op], a, ["op", V.OP_ELSE], b, ["op", V.OP_ENDIF]],
+                            st.sampled_from([["n", 2, "opn"], ["d", "02", "min"], ["d", "0100", "min"], ["n", 1, "opn"], ["n", 0, "opn"],
+                                             ["d", "00", "min"], ["d", "80", "min"], ["d", "0001", "min"]]),
+                            st.sampled_from([V.OP_IF, V.OP_NOTIF]), st.sampled_from([["n", 1, "opn"], ["n", 0, "opn"]]),
+                            st.sampled_from([["n", 1, "opn"], ["n", 0, "opn"]]))
+    sig_unlock = st.builds(lambda k, form, neg: [["n", 0, "opn"], ["key", k, form], ["op", V.OP_CHECKSIG]] + ([["op", V.OP_NOT]] if neg else []),
+                           st.integers(0, 5), st.sampled_from(["u", "c", "h", "hbad"]), st.booleans())
+    exec_sig = st.builds(mk_exec, simple_locks, st.one_of(cond_unlock, cond_unlock, sig_unlock, stmt_list(1)),
+                         st.one_of(flagsets(), st.sampled_from([V.MINIMALIF, V.WITNESS_PUBKEYTYPE, V.P2SH | V.WITNESS | V.MINIMALIF,
+                                                                V.P2SH | V.WITNESS | V.WITNESS_PUBKEYTYPE | V.MINIMALIF, STANDARD & ~V.SIGPUSHONLY])),
+                         contexts())
+
     def mk_wpkh(shape, k, form, ht, var, flags, ctx, mut, use_mut, extra):
         unlock = [["sig", k, ht, var, 0], ["key", k, form]] + extra
         return dict(ctx, kind="spend", shape=shape, lock=[["key", k, form]], unlock=unlock, flags=flags,
                     mut=mut if use_mut else [])
     wpkh = st.builds(mk_wpkh, st.sampled_from(["p2wpkh", "p2sh-p2wpkh"]), st.integers(0, 5),
-                     st.sampled_from(["c", "c", "c", "u", "h", "xgep"]), st.one_of(STD_HT, HASHTYPES), st.sampled_from(SIG_VARIANTS),
+                     st.sampled_from(["c", "c", "c", "u", "h", "xgep"]), st.one_of(STD_HT, HASHTYPES),
+                     # the element-size limit also applies to the two witness items of a P2WPKH spend: signatures padded to
+                     # 520 / 521 bytes (still valid for the lax parser) are drawn as often as all other variants together
+                     weighted((3, st.sampled_from(SIG_VARIANTS)), (1, st.sampled_from(["pad520", "pad521", "pad521"]))),
                      flagsets(), contexts(), muts(), st.sampled_from([False, False, True]),
                      st.sampled_from([[], [], [], [["n", 1, "opn"]]]))
 
@@ -479,7 +506,7 @@ def spend_cases():
                       st.sampled_from([0, 1, 2, 3, 19, 20, 21, 31, 32, 33, 39, 40, 40, 41, 41, 42, 76]), st.sampled_from([0x11, 0x11, 0x00, 0x01]),
                       st.sampled_from(["", "", "", "51", "00"]), st.sampled_from([[], [], ["01"], ["", "51"]]), flagsets(), contexts(),
                       st.sampled_from([False, False, True]))
-    return weighted((5, templ), (3, grammar), (2, wpkh), (1, raw), (1, wprog))
+    return weighted((10, templ), (6, grammar), (4, wpkh), (2, raw), (2, wprog), (1, exec_sig))
 
 
 # ------------------------------------------------------------------------------- raw byte scripts
